@@ -40,6 +40,8 @@ enum Placement {
     Silent,
     /// the node under test knows no address at all for this peer
     NoAddress,
+    /// a reachable node that does not speak Kademlia (substream negotiation fails)
+    NoKad,
 }
 
 #[derive(Clone, Copy, Debug, Hash, PartialEq)]
@@ -60,13 +62,15 @@ struct Scen {
     replication: usize,
     chaos_pct: u8,
     max_outgoing: Option<usize>,
+    /// the node under test is connected to every reachable target before the operations start
+    preconnect: bool,
 }
 
 impl Scen {
     fn to_json(&self) -> Value {
         json!({"seed": self.seed, "placements": self.placements.iter().map(|p| format!("{p:?}")).collect::<Vec<_>>(),
             "ops": self.ops.iter().map(|(t, o)| json!([t, format!("{o:?}")])).collect::<Vec<_>>(),
-            "replication": self.replication, "chaos_pct": self.chaos_pct, "max_outgoing": self.max_outgoing, "gen_seed": self.seed})
+            "replication": self.replication, "chaos_pct": self.chaos_pct, "max_outgoing": self.max_outgoing, "preconnect": self.preconnect, "gen_seed": self.seed})
     }
 }
 
@@ -90,6 +94,7 @@ fn scen_from_json(v: &Value) -> Option<Scen> {
                 "Blackholed" => Placement::Blackholed,
                 "Silent" => Placement::Silent,
                 "NoAddress" => Placement::NoAddress,
+                "NoKad" => Placement::NoKad,
                 other => Placement::ResetAfterBytes(num_in(other)),
             })
             .collect();
@@ -118,6 +123,7 @@ fn scen_from_json(v: &Value) -> Option<Scen> {
             .collect();
     }
     s.max_outgoing = v["max_outgoing"].as_u64().map(|x| x as usize);
+    s.preconnect = v["preconnect"].as_bool().unwrap_or(false);
     if let Some(r) = v["replication"].as_u64() {
         s.replication = r as usize;
     }
@@ -232,7 +238,12 @@ async fn run_scenario(s: Scen, exec: ChaosExecutor, lag: LagMonitor) -> RunOut {
     for p in &s.placements {
         let cfg = mk_cfg(rng.u64());
         let builder = cfg.builder(&exec);
-        let (builder, handle, silent) = if *p == Placement::Silent {
+        let (builder, handle, silent) = if *p == Placement::NoKad {
+            // only a protocol of another name: the connection works, `/ipfs/kad/1.0.0` is refused
+            let (nc, nh) = litep2p::protocol::notification::Config::new(ProtocolName::from("/verif/other/1"), 64, vec![1], Vec::new(), true, 8, 8, false);
+            std::mem::forget(nh);
+            (builder.with_notification_protocol(nc), None, None)
+        } else if *p == Placement::Silent {
             let c = Arc::new(AtomicU64::new(0));
             (builder.with_user_protocol(Box::new(SilentKad { received: c.clone() })), None, Some(c))
         } else {
@@ -270,7 +281,7 @@ async fn run_scenario(s: Scen, exec: ChaosExecutor, lag: LagMonitor) -> RunOut {
     for (i, p) in s.placements.iter().enumerate() {
         let peer = targets[i].peer;
         let (addr, proxy): (Multiaddr, Option<Proxy>) = match p {
-            Placement::Healthy | Placement::Silent => (targets[i].addr.clone(), None),
+            Placement::Healthy | Placement::Silent | Placement::NoKad => (targets[i].addr.clone(), None),
             Placement::NoAddress => {
                 proxies.push(None);
                 continue;
@@ -381,6 +392,14 @@ async fn run_scenario(s: Scen, exec: ChaosExecutor, lag: LagMonitor) -> RunOut {
             }
         }
     });
+    if s.preconnect {
+        for (i, p) in s.placements.iter().enumerate() {
+            if matches!(p, Placement::Healthy | Placement::Silent | Placement::NoKad) {
+                let _ = nut.dial_address(targets[i].addr.clone()).await;
+            }
+        }
+        tokio::time::sleep(Duration::from_millis(300)).await;
+    }
     lag.take_max_ms();
     let t0 = Instant::now();
     for (idx, (at, op)) in s.ops.iter().enumerate() {
@@ -447,6 +466,7 @@ fn check(rep: &mut Report, s: &Scen, o: &RunOut) {
                 Placement::ResetAfterBytes(_) => "reset",
                 Placement::Silent => "silent",
                 Placement::NoAddress => "no-address",
+                Placement::NoKad => "no-kad",
             })
             .collect();
         kinds.sort();
@@ -478,7 +498,7 @@ fn check(rep: &mut Report, s: &Scen, o: &RunOut) {
                     let tag = if s.max_outgoing.is_some() {
                         "outbound-connection-limit-configured"
                     } else {
-                        ["undialable-address", "no-address", "refused-port", "blackholed", "reset", "silent"].iter().find(|k| placements_tag.contains(**k)).copied().unwrap_or("healthy-only")
+                        ["undialable-address", "no-address", "no-kad", "refused-port", "blackholed", "reset", "silent"].iter().find(|k| placements_tag.contains(**k)).copied().unwrap_or("healthy-only")
                     };
                     rep.violation(
                         format!("C16/no-terminal-event/{opname}/{tag}"),
@@ -560,6 +580,7 @@ fn gen(rng: &mut Rng) -> Scen {
                 Placement::ResetAfterBytes(2000),
                 Placement::Silent,
                 Placement::NoAddress,
+                Placement::NoKad,
             ])
         })
         .collect();
@@ -583,7 +604,27 @@ fn gen(rng: &mut Rng) -> Scen {
             (t, op)
         })
         .collect();
-    Scen { seed: rng.u64(), placements, ops, replication: rng.range(2, 3), chaos_pct: *rng.pick(&[0u8, 5, 20]), max_outgoing: *rng.pick(&[None, None, None, Some(1), Some(2)]) }
+    let mut s = Scen { seed: rng.u64(), placements, ops, replication: rng.range(2, 3), chaos_pct: *rng.pick(&[0u8, 5, 20]), max_outgoing: *rng.pick(&[None, None, None, Some(1), Some(2)]), preconnect: false };
+    // (drawn last so that earlier scenario seeds keep their meaning)
+    s.preconnect = rng.chance(0.3);
+    if rng.chance(0.3) {
+        // several operations in flight at the same instant (same peers, same dials, same substreams)
+        let n = rng.range(3, 7);
+        s.ops = (0..n)
+            .map(|_| {
+                let q = *rng.pick(&[0u8, 1, 2, 255]);
+                (0u64, match rng.usize(6) {
+                    0 => Op::FindNode,
+                    1 => Op::PutRecord(q),
+                    2 => Op::PutRecordToPeers(q),
+                    3 => Op::GetRecord(q),
+                    4 => Op::StartProviding(q),
+                    _ => Op::GetProviders,
+                })
+            })
+            .collect();
+    }
+    s
 }
 
 pub fn run(ctx: &Ctx) -> Report {
@@ -624,14 +665,24 @@ pub fn run(ctx: &Ctx) -> Report {
             }
         }
         // directed: no target is usable at all: a quorum of N/All must not be reported as reached
-        for (k, q) in [2u8, 255, 0, 3].iter().enumerate() {
+        for (k, (q, mixed)) in [(2u8, false), (255, false), (3, false), (0, false), (255, true), (2, true)].iter().enumerate() {
             if (k + ctx.shard) % 2 == 0 {
                 let mut d = scen_from_seed(rng.u64());
-                d.placements = if k % 2 == 0 { vec![Placement::NoAddress, Placement::NoAddress] } else { vec![Placement::NoAddress, Placement::UndialableAddress, Placement::NoAddress] };
+                d.placements = if !*mixed { vec![Placement::NoAddress, Placement::NoAddress] } else { vec![Placement::NoAddress, Placement::UndialableAddress, Placement::NoAddress] };
                 d.ops = vec![(0, Op::PutRecordToPeers(*q))];
                 d.max_outgoing = None;
+                d.preconnect = false;
                 v.push(d);
             }
+        }
+        // directed: a connected peer that does not speak Kademlia, several operations at once
+        {
+            let mut d = scen_from_seed(rng.u64());
+            d.placements = vec![Placement::NoKad];
+            d.ops = vec![(0, Op::FindNode), (0, Op::GetRecord(0)), (0, Op::PutRecord(0)), (0, Op::GetProviders), (0, Op::StartProviding(0)), (0, Op::PutRecordToPeers(0))];
+            d.max_outgoing = None;
+            d.preconnect = ctx.shard % 2 == 0;
+            v.push(d);
         }
         v
     };
